@@ -1,10 +1,12 @@
 """C08 - stores round-trip blobs and paths; distinct paths never alias or escape."""
+import concurrent.futures
 import itertools
 import json
 import random
 
 import common as C
 import c12
+import drive_store_typed as DT
 
 COQ_FILES = ("L4_Eval/Store.v", "L5_Stores/RunStore.v", "L5_Stores/PathMap.v", "L5_Stores/PathMapProofs.v", "L6_Conc/LocalProgs.v", "L6_Conc/SeqRefine.v", "Properties/C08.v", "Properties/C08b.v", "Base/PyRt.v", "Extracted/GenPath.v", "L5_Stores/GenPathProofs.v", "Properties/C08g.v")
 PROPERTY_FILES = ("C08", "C08b", "C08g")
@@ -17,6 +19,16 @@ BAD_SEGS = [".", ".."]
 KEYS = ["k0", "k1", "k2", "k3"]
 VALUE = {"k0": "v0", "k1": "v1", "k2": None, "k3": "v3"}
 STORES = ["memory", "local", "local+lru", "dbfs-full"]
+# typed blob values (encodings of drive_store_typed.py): every codec class of the stores (text, bytes, pickle), empty / falsy
+# values, the same content under two types, bytes and text that are themselves valid pickles of another value
+TYPED = {"s_text": ["str", "text"], "s_empty": ["str", ""], "s_uni": ["str", "\u00e9 \u00fc\n\u4e2d"], "s_pickle0": ["str", "Vtext\np0\n."],
+         "b_bin": ["bytes", "00016279746573ff"], "b_text": ["bytes", b"text".hex()], "b_empty": ["bytes", ""], "ba_bin": ["bytearray", "fffe00"],
+         "b_pickle_text": ["pickled", ["str", "text"]], "b_pickle_none": ["pickled", ["none"]],
+         "none": ["none"], "o_dict": ["json", {"a": 1}], "o_list": ["json", [1, "x", None]], "o_elist": ["json", []], "o_zero": ["json", 0],
+         "o_false": ["json", False], "o_float": ["json", 1.5], "o_tuple": ["tuple", [["str", "text"], ["bytes", "00"]]]}
+TYPED_CORE = ["s_text", "s_empty", "b_bin", "b_text", "b_pickle_text", "none", "o_dict", "o_zero"]
+TYPED_STORES = ["memory", "local", "dbfs-full"]
+TKEYS = ["k0", "k1", "k2"]
 
 
 def segs_of(p):
@@ -68,6 +80,137 @@ def spec_ops(ops):
     return [o for o in ops if o[0] != "reopen"]
 
 
+def vclass(name):
+    """the codec class the stores must record for a typed value"""
+    return {"str": "str", "bytes": "bytes", "bytearray": "bytes", "pickled": "bytes"}.get(TYPED[name][0], "pickle")
+
+
+CANON = {DT.canon(DT.decode(e)): n for n, e in TYPED.items() if n != "none"}
+assert len(CANON) == len(TYPED) - 1, "typed values must be pairwise distinguishable"
+
+
+def typed_show(name):
+    return DT.canon(DT.decode(TYPED[name]))
+
+
+def typed_impl_ops(ops):
+    return [[o[0], o[1], TYPED[o[2]]] if o[0] == "put" else o for o in ops]
+
+
+def typed_model_ops(ops):
+    # in the dictionary model a typed value is its name (pairwise distinct values <-> pairwise distinct names)
+    return [[o[0], o[1], None if o[2] == "none" else o[2]] if o[0] == "put" else o for o in spec_ops(ops)]
+
+
+def typed_out(x, o, kind):
+    if x.startswith("V:"):
+        return "V:" + CANON.get(x[2:], "?" + x[2:])
+    if x.startswith("E:") or (x.startswith("X:Exception") and o[0] == "fpaths" and kind.startswith("dbfs")):
+        return "E"
+    return x
+
+
+def gen_typed_seq(rng, paths, length, kind):
+    """a history that stores the SAME key several times with values of different types; behind the object cache the sequence is
+    kept content-addressed (one value per key, stored several times): the cache is only specified under that assumption (C12)"""
+    names = sorted(TYPED)
+    fixed = {k: rng.choice(names) for k in TKEYS} if "+lru" in kind else None
+    ops, stored = [], []
+    for _ in range(length):
+        r = rng.random()
+        k = rng.choice(TKEYS)
+        if r < 0.32:
+            ops.append(["put", k, fixed[k] if fixed else rng.choice(names if rng.random() < 0.7 else TYPED_CORE)])
+            stored.append(k) if k not in stored else None
+        elif r < 0.45:
+            ops.append(["has", k])
+        elif r < 0.7:
+            ops.append(["fetch", k])
+        elif r < 0.8 and stored:
+            ops.append(["sync", [[rng.choice(paths), rng.choice(stored)] for _ in range(rng.randint(1, 2))]])
+        elif r < 0.9:
+            ops.append(["fpaths", [rng.choice(paths)]])
+        elif kind != "memory":
+            ops.append(["reopen"])
+    return ops
+
+
+def overwrite_history(vals, reopen=True):
+    """k0 receives the values one after the other (observed after each store), k1 holds the first value throughout, both are
+    committed under a path before k0 is overwritten; everything is observed again at the end and after reopening the store"""
+    ops = [["put", "k1", vals[0]]]
+    for i, v in enumerate(vals):
+        ops += [["put", "k0", v], ["has", "k0"], ["fetch", "k0"]]
+        if i == 0:
+            ops += [["sync", [["/p", "k0"], ["/q/r", "k1"]]]]
+    tail = [["has", "k0"], ["fetch", "k0"], ["has", "k1"], ["fetch", "k1"], ["fpaths", ["/p", "/q/r"]]]
+    return ops + tail + ([["reopen"]] + tail if reopen else [])
+
+
+def typed_jobs(rng, tier):
+    jobs = []
+    for kind in TYPED_STORES:
+        # all ordered pairs of typed values (incl. twice the same value: storing is idempotent)
+        for a, b in itertools.product(sorted(TYPED), repeat=2):
+            jobs.append({"kind": kind, "shape": "pair", "ops": overwrite_history([a, b], reopen=(kind != "memory"))})
+        if tier != "quick":
+            for t in itertools.product(TYPED_CORE, repeat=3):
+                jobs.append({"kind": kind, "shape": "triple", "ops": overwrite_history(list(t), reopen=(kind != "memory"))})
+    kinds = TYPED_STORES + ["local+lru"]
+    for i in range(60 if tier == "quick" else 800):
+        kind = kinds[i % len(kinds)]
+        jobs.append({"kind": kind, "shape": "random", "ops": gen_typed_seq(rng, gen_paths(rng, 3), rng.randint(6, 24), kind)})
+    for j in jobs:
+        j["store"], j["cap"] = (j["kind"].split("+")[0], 2) if "+lru" in j["kind"] else (j["kind"], "bare")
+    return jobs
+
+
+def run_typed(jobs):
+    """[(normalised answers of the store, raw answers, answers of the dictionary model)] per job"""
+    # several driver processes side by side with the evaluation of the model
+    exprs = sorted({c12.ops_coq(typed_model_ops(j["ops"])) for j in jobs})
+    chunks = [jobs[i:i + 130] for i in range(0, len(jobs), 130)]
+    C.scratch_dir()
+    with concurrent.futures.ThreadPoolExecutor(max_workers=min(len(chunks), max(C.NPROC // 2, 1)) + 1) as ex:
+        fm = ex.submit(C.coq_eval_strings, PRELUDE, [f"run_bare {e}" for e in exprs], label="c08t")
+        parts = ex.map(lambda ch: C.run_driver("drive_store_typed.py", {"seqs": [{"store": j["store"], "cap": j["cap"], "ops": typed_impl_ops(j["ops"])} for j in ch]})["seqs"], chunks)
+        out = [r for part in parts for r in part]
+        model = dict(zip(exprs, fm.result()))
+    res = []
+    for j, r in zip(jobs, out):
+        pairs = [(typed_out(x, o, j["kind"]), x) for x, o in zip(r["outs"], j["ops"]) if o[0] != "reopen"]
+        res.append(([a for a, _ in pairs], [b for _, b in pairs], model[c12.ops_coq(typed_model_ops(j["ops"]))].split(";")))
+    return res
+
+
+def check_typed(rep, rng, tier):
+    jobs = typed_jobs(rng, tier)
+    for j, (impl, raw, m) in zip(jobs, run_typed(jobs)):
+        ops, so = j["ops"], spec_ops(j["ops"])
+        puts = {}
+        for o in ops:
+            if o[0] == "put":
+                puts.setdefault(o[1], []).append(o[2])
+        rep.case(json.dumps(["typed", j["kind"], ops]), any(len({vclass(v) for v in vs}) > 1 for vs in puts.values()))
+        if impl != m:
+            idx = next((i for i, (a, b) in enumerate(zip(impl, m)) if a != b), -1)
+            op = so[idx] if idx >= 0 else ["?", "?"]
+            # the values stored under the key of the failing operation, up to that operation
+            hist = [o[2] for o in so[:max(idx, 0)] if o[0] == "put" and o[1] == op[1]]
+            trans = "->".join(vclass(v) for v in hist[-2:]) or "none"
+            full = [i for i, o in enumerate(ops) if o[0] != "reopen"][idx] if idx >= 0 else 0
+            reopened = any(o[0] == "reopen" for o in ops[:full])
+            rep.violation(f"typed-value-not-fetched-back:{j['kind']}:{op[0]}:{trans}",
+                          f"{j['kind']} store: " + (f"after storing {' then '.join(typed_show(v) for v in hist) or 'nothing'} under the key {op[1]}, "
+                                                   if op[0] in ("has", "fetch", "put") else "in a history that stores keys several times with values of different types, ") +
+                          f"{op[0]} {op[1]} answers {raw[idx] if idx >= 0 else raw[:4]} where the dictionary model answers "
+                          f"{m[idx] if idx >= 0 else m[:4]}{' = ' + typed_show(m[idx][2:]) if idx >= 0 and m[idx][2:] in TYPED else ''} "
+                          f"(operation {full} of the {j['shape']} history{', the store was reopened before' if reopened else ''})",
+                          {"typed": True, "store": j["kind"], "ops": ops, "values": {o[2]: TYPED[o[2]] for o in ops if o[0] == "put"},
+                           "impl": impl, "model": m, "first_diff": idx})
+    return jobs
+
+
 def run(rep, tier, seed, proof_ok):
     rng = random.Random(seed)
     rep.rule = ("operation sequences (store/has/fetch blob, sync/fetch paths, reopen) of length 6..30 over 4 keys (incl. a None-valued "
@@ -75,8 +218,16 @@ def run(rep, tier, seed, proof_ok):
                 "MemoryStore, LocalFileStore, LocalFileStore+object cache and DBFSStore over the fake dbutils, all compared with the "
                 "dictionary specification evaluated in Coq; exhaustive aliasing search over all pairs of paths of 1..3 segments over "
                 "{a, b, ab} (+ '.', '..' segments) on the real local and DBFS stores; realpath of every created entry must stay inside "
-                "the data directory; commits of paths that are prefixes / extensions of committed paths must not disturb those; distinct = distinct (store, sequence) or path pair; non-trivial = sequence with a sync followed by a "
-                "fetch of the same path")
+                "the data directory; commits of paths that are prefixes / extensions of committed paths must not disturb those; "
+                "typed overwrite histories: the SAME key is stored several times with values of different types (str incl. empty / "
+                "unicode / text that is a pickle, bytes incl. empty / non-UTF-8 / the bytes of a str value / the pickle of another "
+                "value, bytearray, None, falsy and container objects: 18 values in the 3 codec classes text / bytes / pickle), "
+                "observed (has, fetch, an unrelated key, committed paths) after each store, at the end and after reopening: all "
+                "ordered pairs of values (thorough: + all triples over 8 core values) and random sequences over 3 keys on the bare "
+                "MemoryStore, LocalFileStore and DBFSStore, content-addressed random sequences behind an object cache of capacity 2, "
+                "the answer of every operation compared with the dictionary (last value stored wins) evaluated in Coq; "
+                "distinct = distinct (store, sequence) or path pair; non-trivial = sequence with a sync followed by a "
+                "fetch of the same path, or typed history that stores one key with values of two codec classes")
     n_seq = 40 if tier == "quick" and proof_ok else 400
     jobs = []
     for i in range(n_seq):
@@ -110,6 +261,8 @@ def run(rep, tier, seed, proof_ok):
                           f"(operation {idx}: {so[idx] if idx >= 0 else ''})", {"store": j["kind"], "ops": ops, "impl": impl, "model": m, "first_diff": idx})
         if r.get("outside"):
             rep.violation("escape:" + j["kind"], f"entries created outside the data directory: {r['outside']}", {"store": j["kind"], "ops": ops, "outside": r["outside"]})
+    # the same key stored several times with values of different types: the last value must be fetched back
+    tjobs = check_typed(rep, rng, tier)
     # a path is committed that is a strict prefix (or extension) of committed paths: the commit may be refused, but what was
     # committed before must keep resolving to its key (nothing may be deleted to make room), also after reopening
     pjobs = []
@@ -167,14 +320,26 @@ def run(rep, tier, seed, proof_ok):
                 rep.violation(f"alias:{kind}:{kind2}", f"{kind} store: paths {reps[:3]} with different segment sequences share the location {list(entries)[:2]}",
                               {"store": kind, "paths": reps, "location": list(entries)})
     rep.extra["input_distribution"] = {"sequences": len(jobs), "by_store": {k: sum(1 for j in jobs if j["kind"] == k) for k in STORES},
-                                       "alias_candidates": len(cand)}
+                                       "alias_candidates": len(cand), "typed_values": len(TYPED),
+                                       "typed_values_by_codec_class": {c: sum(1 for v in TYPED if vclass(v) == c) for c in ("str", "bytes", "pickle")},
+                                       "typed_histories": len(tjobs),
+                                       "typed_by_shape": {k: sum(1 for j in tjobs if j["shape"] == k) for k in ("pair", "triple", "random")},
+                                       "typed_by_store": {k: sum(1 for j in tjobs if j["kind"] == k) for k in TYPED_STORES + ["local+lru"]}}
     rep.sample({"store": jobs[1]["kind"], "ops": jobs[1]["ops"][:8]})
+    rep.sample({"typed": tjobs[1]["kind"], "ops": typed_impl_ops(tjobs[1]["ops"])[:8]})
     rep.sample({"alias_candidates": cand[:5] + odd[:4]})
 
 
 def replay(path):
     r = json.load(open(path))["replay"]
-    if "ops" in r:
+    if r.get("typed"):
+        TYPED.update(r["values"])
+        CANON.update({DT.canon(DT.decode(e)): n for n, e in r["values"].items() if n != "none"})
+        j = {"kind": r["store"], "ops": r["ops"], "store": r["store"].split("+")[0], "cap": 2 if "+lru" in r["store"] else "bare"}
+        impl, raw, m = run_typed([j])[0]
+        print(json.dumps({"ops": typed_impl_ops(r["ops"]), "impl": raw, "model": m}, indent=1))
+        bad = impl != m
+    elif "ops" in r:
         store = r["store"].split("+")[0]
         o = C.run_driver("drive_store.py", {"seqs": [{"store": store, "cap": 3 if "+lru" in r["store"] else "bare", "ops": r["ops"], "listing": store == "local"}]})["seqs"][0]
         print(json.dumps({"ops": r["ops"], "impl": o["outs"], "model": r.get("model")}, indent=1))
